@@ -147,7 +147,11 @@ func ntsOpenRaw(p []byte, key []byte) ([]byte, bool) {
 // ntsReseal builds an NTS response the way a holder of the session key can: the given NTP
 // header and unique identifier, and plaintext pt (the encrypted extension fields) sealed
 // under key with everything before the authenticator as associated data.
-func ntsReseal(hdr, uid, pt, key []byte) []byte {
+func ntsReseal(hdr, uid, pt, key []byte) []byte { return ntsResealNonce(hdr, uid, pt, key, 0) }
+
+// ntsResealNonce is ntsReseal with a chosen nonce (numbered, so that a caller can search for
+// a ciphertext with some property).
+func ntsResealNonce(hdr, uid, pt, key []byte, nonceNo int) []byte {
 	mut := append([]byte(nil), hdr[:48]...)
 	mut = append(mut, 0x01, 0x04, byte((4+len(uid))>>8), byte(4+len(uid)))
 	mut = append(mut, uid...)
@@ -155,6 +159,7 @@ func ntsReseal(hdr, uid, pt, key []byte) []byte {
 	for i := range nonce {
 		nonce[i] = byte(0x30 + i)
 	}
+	nonce[0], nonce[1] = byte(nonceNo), byte(nonceNo>>8)
 	ct := sealSIV(key, nonce, pt, mut)
 	ctPad := (len(ct) + 3) &^ 3
 	flen := 4 + 4 + 16 + ctPad
